@@ -175,6 +175,9 @@ class Flow:
                         out.append(("const", op, pt))
                     elif not p["proj"]:
                         out.append(("copy", p["local"], pt))
+                    elif p["proj"] == ["deref"] and self._ref_of_local(p["local"]) is not None:
+                        # `*r` with `r = &x` (single definition): a read of x (a by-reference capture of an inlined closure)
+                        out.append(("copy", self._ref_of_local(p["local"]), pt))
                     else:
                         out.append(("field", p, pt))
                 elif "ref" in rv or "rawptr" in rv:
@@ -202,6 +205,30 @@ class Flow:
             elif kind in ("partial", "partial_call"):
                 out.append(("partial", data, pt))
         return out
+
+    def _ref_of_local(self, r):
+        """x when r's only definition is `&x` / `&mut x` of a whole local (through single-definition copies and reborrows of r)"""
+        seen = set()
+        while r is not None and r not in seen and len(seen) < 6:
+            seen.add(r)
+            ds = [d for d in self.body.defs.get(r, []) if d[1] in ("assign", "call", "arg")]
+            if len(ds) != 1 or ds[0][1] != "assign":
+                return None
+            rv = ds[0][2]["rv"]
+            if "ref" in rv:
+                if not rv["ref"]["proj"]:
+                    return rv["ref"]["local"]
+                if rv["ref"]["proj"] == ["deref"]:
+                    r = rv["ref"]["local"]
+                    continue
+                return None
+            if "use" in rv:
+                pl = op_place(rv["use"])
+                if pl is not None and not pl["proj"]:
+                    r = pl["local"]
+                    continue
+            return None
+        return None
 
     def roots(self, local, through_agg=True):
         """transitive closure of sources through copies, refs, field projections and view calls.
@@ -610,9 +637,9 @@ class Region:
         self.guard = call.dst_local()
         self.points = self._compute()
 
-    def _kills(self, pt):
+    def _kills(self, pt, g=None):
         body = self.body
-        g = self.guard
+        g = self.guard if g is None else g
         st = body.stmt(pt)
         if st is not None:
             if st["k"] == "storage_dead" and st["local"] == g:
@@ -631,22 +658,41 @@ class Region:
                     return True
         return False
 
+    def _handover(self, pt, g):
+        """`x = move g` with x a whole local: the guard changes hands (a helper that received the guard by value, once inlined); the
+        lock stays held under the new owner"""
+        st = self.body.stmt(pt)
+        if st is not None and st["k"] == "assign" and not st["dst"]["proj"] and "use" in st["rv"] and "move" in st["rv"]["use"] \
+                and op_local(st["rv"]["use"]) == g and st["dst"]["local"] != g:
+            return st["dst"]["local"]
+        return None
+
     def _compute(self):
         body = self.body
         # forward must analysis == points reachable from the acquire's return edge without passing a kill,
-        # minus points also reachable from entry without passing the acquire (must, not may)
-        kills = {pt for pt in body.points() if self._kills(pt)}
-        start = after(body, self.call.point, unwind=False, label="ret")
-        may = reach(body, start, avoid=kills, unwind=True)
-        # a kill point itself executes while held
-        held_kills = set()
-        for k in kills:
-            b, i = k
-            prevs = [Point(b, i - 1)] if i > 0 else [body.term_point(p) for p in body.preds(True).get(b, [])]
-            if i == 0 and Point(b, 0) in start:
-                held_kills.add(k)
-            for p in prevs:
-                if p in may:
+        # minus points also reachable from entry without passing the acquire (must, not may); the guard may be handed from local to local
+        may, held_kills = set(), set()
+        self.owners = []
+        work = [(after(body, self.call.point, unwind=False, label="ret"), self.guard)]
+        while work and len(self.owners) < 8:
+            start, g = work.pop()
+            if g in self.owners:
+                continue
+            self.owners.append(g)
+            kills = {pt for pt in body.points() if self._kills(pt, g)}
+            seg = reach(body, start, avoid=kills, unwind=True)
+            may |= seg
+            for k in kills:
+                b, i = k
+                prevs = [Point(b, i - 1)] if i > 0 else [body.term_point(p) for p in body.preds(True).get(b, [])]
+                held = k in start or (i == 0 and Point(b, 0) in start) or any(p in seg for p in prevs)
+                if not held:
+                    continue
+                nxt = self._handover(k, g)
+                if nxt is not None:
+                    may.add(k)
+                    work.append((after(body, k, unwind=True), nxt))
+                else:
                     held_kills.add(k)
         # must: not reachable from entry while avoiding the acquire point and avoiding re-entry
         notheld = reach(body, [entry(body)], avoid={self.call.point}, unwind=True)
